@@ -215,7 +215,7 @@ pub fn %(name)s() {
     gen.write_gen("c15_list.rs", "\n".join(code))
     return {
         "harnesses": hs,
-        "groups": {"main": {"features": ["c15"], "timeout_s": 3000, "unwindset": [["try_from_fn_erased", 392]]}, "trunc": {"features": ["c15"], "timeout_s": 3000, "unwindset": [["try_from_fn_erased", 392]]}},
+        "groups": {"main": {"features": ["c15"], "est_gb": 4, "timeout_s": 3000, "unwindset": [["try_from_fn_erased", 392]]}, "trunc": {"features": ["c15"], "timeout_s": 3000, "unwindset": [["try_from_fn_erased", 392]]}},
         "level": "model_checking",
         "functions": ["msg::{frag_vec, frag_vec_with_len, msg_len_middle} generated encode/decode for %d list-bearing message types" % len(types), "df_88591_string_with_len encode/decode", "DataVec::{push,len}"],
         "bounds": {"counts": "every n in 0..=capacity (thorough; quick n in {0,1,cap} for %d types), one harness per (type, n) with the real element codec" % len(QUICK),
